@@ -561,9 +561,58 @@ fn gen_txn(rng: &mut Rng, max_calls: usize) -> TxnScript {
     TxnScript { calls, commit: rng.chance(3, 4), reopen_after: rng.chance(1, 6) }
 }
 
+/// a transaction built from fragments that belong together (a task's life), so that sequences
+/// such as create / log operations / sync / delete / sync / read log occur often
+fn gen_story_txn(rng: &mut Rng) -> TxnScript {
+    let mut calls = Vec::new();
+    for _ in 0..1 + rng.usize_below(3) {
+        let t = rng.below(3) as u8;
+        match rng.below(8) {
+            0..=1 => {
+                calls.push(StCall::Create(t));
+                calls.push(StCall::AddOp { kind: 0, t, p: 0, val: None });
+                if rng.chance(1, 2) {
+                    calls.push(StCall::SetTask(t, vec![("status".into(), "pending".into())]));
+                    calls.push(StCall::AddOp { kind: 2, t, p: rng.below(3) as u8, val: Some("x".into()) });
+                }
+                if rng.chance(1, 2) {
+                    calls.push(StCall::AddWs(t));
+                }
+            }
+            2 => calls.push(StCall::SyncComplete),
+            3 => {
+                calls.push(StCall::Delete(t));
+                if rng.chance(1, 2) {
+                    calls.push(StCall::AddOp { kind: 1, t, p: 0, val: None });
+                }
+            }
+            4 => calls.push(StCall::AddOp { kind: rng.below(4) as u8, t, p: rng.below(3) as u8, val: Some("y".into()) }),
+            5 => {
+                calls.push(StCall::TaskOps(t));
+                calls.push(StCall::GetTask(t));
+            }
+            6 => {
+                calls.push(StCall::GetWs);
+                calls.push(StCall::GetPending);
+                calls.push(StCall::Unsynced);
+            }
+            _ => calls.push(StCall::SetWsItem(rng.below(8) as u8, if rng.chance(1, 2) { None } else { Some(t) })),
+        }
+    }
+    TxnScript { calls, commit: rng.chance(7, 8), reopen_after: rng.chance(1, 8) }
+}
+
 pub fn gen_c16(seed: u64, i: u64, _thorough: bool) -> Value {
     let s = mix(seed, "C16", i);
     let mut rng = Rng::new(s);
+    if rng.chance(1, 2) {
+        let legacy = if rng.chance(1, 5) { 2 + rng.below(3) as u8 } else { 0 };
+        let prefill = (0..rng.usize_below(3)).map(|_| { let mut t = gen_story_txn(&mut rng); t.commit = true; t.reopen_after = false; t }).collect();
+        let mut txns: Vec<TxnScript> = (0..3 + rng.usize_below(6)).map(|_| gen_story_txn(&mut rng)).collect();
+        // finish by reading every task's operation log
+        txns.push(TxnScript { calls: (0..3).map(StCall::TaskOps).chain([StCall::Unsynced, StCall::GetWs, StCall::AllTasks]).collect(), commit: false, reopen_after: false });
+        return serde_json::to_value(ScC16 { check: "C16".into(), seed: s, legacy, prefill, txns }).unwrap();
+    }
     let legacy = if rng.chance(1, 4) { 1 + rng.below(4) as u8 } else { 0 };
     let prefill = (0..rng.usize_below(3)).map(|_| { let mut t = gen_txn(&mut rng, 8); t.commit = true; t.reopen_after = false; t }).collect();
     let txns = (0..1 + rng.usize_below(5)).map(|_| gen_txn(&mut rng, 10)).collect();
